@@ -135,4 +135,22 @@ theorem C07_close_keeps_index (st : Index) (f : Path) :
     (st.closeFile f).version = st.version := by
   simp [closeFile]
 
+open Index in
+/-- **C07 (pressure-driven eviction never touches the index maps either).**
+    `evict_cache_if_needed` removes, for whichever files it picks, exactly the entries
+    `cleanup_file_cache` removes; so for ANY evicted set the definitions, usages, reverse indexes
+    and the version are unchanged. (Answers can still change through `file_cache` membership of a
+    conftest — the same finding E11 as for closing.) -/
+theorem C07_evict_keeps_index (st : Index) (evicted : List Path) :
+    (evicted.foldl closeFile st).defs = st.defs ∧ (evicted.foldl closeFile st).usages = st.usages ∧
+    (evicted.foldl closeFile st).ubf = st.ubf ∧ (evicted.foldl closeFile st).fileDefs = st.fileDefs ∧
+    (evicted.foldl closeFile st).version = st.version := by
+  induction evicted generalizing st with
+  | nil => exact ⟨rfl, rfl, rfl, rfl, rfl⟩
+  | cons f fs ih =>
+    simp only [List.foldl_cons]
+    obtain ⟨h1, h2, h3, h4, h5⟩ := ih (st.closeFile f)
+    obtain ⟨g1, g2, g3, g4, g5⟩ := C07_close_keeps_index st f
+    exact ⟨h1.trans g1, h2.trans g2, h3.trans g3, h4.trans g4, h5.trans g5⟩
+
 end PLS
